@@ -19,7 +19,9 @@ GrpcTimeouts == { <<>>, <<"0", "S">>, <<"0", "0", "0", "n">>, <<"1", "n">>, <<"5
                   <<"5", ".", "5", "S">>, <<" ", "5", "S">>, <<"5", " ", "S">>, <<"5", "s">>,
                   <<"1", "2", "3", "4", "5", "6", "7", "8", "9", "S">>, <<"5", "S", "S">>,
                   \* more digits than the grammar allows, although the value is small
-                  <<"0", "0", "0", "0", "0", "0", "0", "0", "5", "S">>, <<"0", "0", "0", "0", "0", "0", "0", "0", "0", "n">> }
+                  <<"0", "0", "0", "0", "0", "0", "0", "0", "5", "S">>, <<"0", "0", "0", "0", "0", "0", "0", "0", "0", "n">>,
+                  \* ... also when the unit is hours and the value beyond what a duration holds
+                  <<"1", "2", "3", "4", "5", "6", "7", "8", "9", "H">>, <<"1", "0", "0", "0", "0", "0", "0", "0", "0", "0", "H">> }
 ConnectTimeouts == { <<>>, <<"0">>, <<"0", "0", "0", "0", "0", "0", "0", "0", "0", "0">>, <<"1">>, <<"5", "0", "0", "0">>, <<"3", "0", "0", "0", "0", "0">>,
                      <<"9", "9", "9", "9", "9", "9", "9", "9", "9", "9">>,
                      <<"a", "b", "c">>, <<"+", "5", "0", "0", "0">>, <<"-", "5", "0", "0", "0">>,
